@@ -110,7 +110,8 @@ fn note_big(size: usize) {
         buf[prefix.len()..prefix.len() + d.len()].copy_from_slice(d);
         buf[prefix.len() + d.len()] = b'\n';
         unsafe {
-            libc::write(fd, buf.as_ptr() as *const libc::c_void, prefix.len() + d.len() + 1);
+            // beyond the breadcrumb line, which is rewritten in place at offset 0
+            libc::pwrite(fd, buf.as_ptr() as *const libc::c_void, prefix.len() + d.len() + 1, 16384);
         }
     }
 }
